@@ -23,7 +23,7 @@ impl Default for Ctx { fn default() -> Self { Ctx(0) } }
 #[derive(Debug, Default, PartialEq)] pub struct D2(pub u64);
 #[derive(Debug, Default, PartialEq)] pub struct D3(pub u64);
 pub fn need_send<T: Send>(_: &T) {}
-pub fn sub<L: ::state_machines::SubstateOf<Q>, Q>() {}
+pub fn sub<L: ::state_machines::SubstateOf<Q> + ::state_machines::core::SubstateOf<Q>, Q>() {}
 pub fn ms<T: ::state_machines::MachineState>() {}
 '''
 
